@@ -7,7 +7,7 @@ V = {}
 
 def add(proto, kind, nm, ns, mode, T, tier, **kw):
     tag = "".join(f"+{k}" for k, val in sorted(kw.items()) if val is True)
-    n = f"axi{'' if proto == 'full' else 'lite'}.{kind}({nm}x{ns},{mode},timeout={T}){tag}"
+    n = f"axi{'' if proto == 'full' else 'lite'}.{kind}({nm}x{ns},{mode},timeout={T}){tag}" + (",q2" if kw.get("qdepth") else "")
     V[n] = (tier, dict(proto=proto, kind=kind, nm=nm, ns=ns, mode=mode, timeout=T, faults=True, w_late=False, unmapped=True, **kw))
 
 
@@ -23,6 +23,8 @@ for proto in ("lite", "full"):
     add(proto, "timeout", 1, 1, "mixed", 2, "thorough")
     add(proto, "crossbar", 1, 2, "read", 2, "quick" if proto == "lite" else "thorough")
     add(proto, "crossbar", 2, 2, "write", 2, "thorough")
+    add(proto, "timeout", 1, 1, "write", 2, "quick" if proto == "lite" else "thorough", qdepth=2)
+    add(proto, "shared", 1, 2, "write", 3, "thorough", qdepth=2)
     add(proto, "timeout", 1, 1, "read", 2, "quick" if proto == "lite" else "thorough", die_after_accept=True)
     add(proto, "timeout", 1, 1, "write", 2, "thorough", die_after_accept=True)
 
